@@ -16,6 +16,9 @@ limitations under the License.
 
 #pragma once
 
+#include <map>
+#include <utility>
+
 #include "libcellml/analysermodel.h"
 
 namespace libcellml {
@@ -65,7 +68,7 @@ struct AnalyserModel::AnalyserModelImpl
     bool mNeedAcschFunction = false;
     bool mNeedAcothFunction = false;
 
-    std::map<uintptr_t, bool> mCachedEquivalentVariables;
+    std::map<std::pair<uintptr_t, uintptr_t>, bool> mCachedEquivalentVariables;
 
     static AnalyserModelPtr create(const ModelPtr &model = nullptr);
 
